@@ -121,18 +121,29 @@ CLAIMED = {
              'weights, ties, self-loops, removals; all ordered pairs incl. absent end points); petgraph astar not proved; path sums < 2^63.',
         ref='DESIGN.md §7 C15'),
     'C09': dict(
-        technique='Lean 4 refinement proof (inductive invariant over operation histories) of a hand-written model of Context '
-                  '(base UltraGraph, extra UltraGraphs, selection, two index maps) over the C08 graph model against a specification '
-                  'built from plain directed-graph stores + differential correspondence run against the real Context',
+        technique='Lean 4 refinement proof (inductive invariant over operation histories) of a model of Context (base UltraGraph, '
+                  'extra UltraGraphs, selection, two index maps) over the C08 graph model against a specification built from plain '
+                  'directed-graph stores; the model is tied to the source by the fail-closed translator tools/rs2lean_context.py '
+                  '(Gen/Ctx.lean: one definition per public function of Context, regenerated from the current Rust on every run; '
+                  'Props/C09Gen.lean proves every generated definition equal to the model on every state satisfying the reachable-'
+                  'state invariant) + differential correspondence run against the real Context',
         text='Theorem c09_refinement: for every history interleaving base-context operations, extra_ctx_add_new, switching / unsetting / '
              'mis-setting the current context, extra-context node and edge operations and set_index/get_index, the outputs of the '
              'implementation model are exactly those the specification allows (every store answers as a plain directed-graph store in '
              'the sense of C08, an operation touches only the store it addresses) and the final states correspond; c09_reachable_inv; '
              'frame theorems c09_base_ops_frame, c09_extra_ops_frame (base, every OTHER extra context, selection and maps untouched), '
              'c09_mgmt_ops_frame; c09_extra_ops_without_selection_fail_clean; c09_set_current_refused_iff (refused iff the id is not 0 '
-             'and not an existing extra context); c09_index_get_after_set, c09_index_maps_independent, c09_index_maps_frame.',
-        note='Trusted: Lean kernel; the hand-written model Model/Ctx.lean over Model/UGraph.lean (tied to the code by the correspondence '
-             'run: base, every extra context incl. a non-existent one, and both index maps re-read after every operation); contextoids '
+             'and not an existing extra context); c09_index_get_after_set, c09_index_maps_independent, c09_index_maps_frame. Tie to the '
+             'source: Props/C09Gen.lean, one `<function>_eq` theorem per generated definition (11 ContextuableGraph, 16 '
+             'ExtendableContextuableGraph, get_index/set_index, id, name, with_capacity; the private helpers get_current_extra_context'
+             '[_mut] are inlined by the translator), genStep_agrees / genRun_eq (every operation, every history; id and name never '
+             'change) and the headline statements on the generated definitions started from the generated with_capacity: '
+             'c09gen_refinement, c09gen_frames, c09gen_extra_ops_without_selection_fail_clean, c09gen_index_get_after_set.',
+        note='Trusted: Lean kernel; the translator rs2lean_context.py for the fragment it reads (its vocabulary: Exec/Res, HashMap as a '
+             'plain finite map, ultragraph through the adapters ug_* onto Model/UGraph.lean, an Err of ultragraph leaves the graph '
+             'unchanged - proved for the model as c08_failed_ops_change_nothing); the UltraGraph model Model/UGraph.lean (C08); the '
+             'correspondence run (base, every extra context incl. a non-existent one, and both index maps re-read after every '
+             'operation) cross-checks the hand model Model/Ctx.lean, which the generated definitions are proved equal to; contextoids '
              'represented by their id (payload and kind checked by the harness on every read), relation kinds not observable through '
              'the Context API; extra_ctx_set_current_id(0) is accepted by the code (deselect) and specified so; F2/F3 fixes applied.',
         ref='DESIGN.md §7 C09'),
